@@ -60,7 +60,9 @@ class IntField(Harness):
         lib = self.lib
         W = bv.W
         w = self.job["params"]["w"]
-        cfg = choose(ctx, "cfg", len(ENCS) * len(ORDERS) * 8 * 2 * 2)
+        # the two extra dimensions (unmatched context calibrator, FloatParameterType wrapper) are explored for the quick tier's widths only
+        full = w in META["bounds"]["quick"]["integer widths"]
+        cfg = choose(ctx, "cfg", len(ENCS) * len(ORDERS) * 8 * (4 if full else 1))
         enc_name, order, off, ctxcal, wrap = ENCS[cfg % 3], ORDERS[(cfg // 3) % 2], (cfg // 6) % 8, bool((cfg // 48) % 2), bool(cfg // 96)
         nbytes = (off + w + 7) // 8 + 1
         buf = bv.fresh_bytes("B", nbytes)
